@@ -374,6 +374,19 @@ func removalWhileMemberDown(rec *mon.Recorder, c int) {
 		up = append(up, cl.Nodes[4])
 		r.note("node 5 joins while the member is down")
 		lag.NoRejoin = true // it comes back with -join false: its own log and the leader's snapshot are all it has
+		// A member that comes back with -join false can only answer nodes it has an address for. Which node leads the
+		// membership group when it returns is left to chance in one case in four (see the finding on a leader that
+		// joined while the member was down); otherwise node 1, which every member knows, is made to lead.
+		if c%4 != 3 {
+			cl.WaitFor(15*time.Second, func() bool {
+				if cl.Nodes[0].ZeroLeader() == 1 {
+					return true
+				}
+				cl.Guard(2*time.Second, func() { cl.Nodes[0].In.ZeroGroup.VerifCampaign() })
+				time.Sleep(100 * time.Millisecond)
+				return cl.Nodes[0].ZeroLeader() == 1
+			})
+		}
 	}
 	if !r.converge(up, want, "after-removal-with-a-member-down", bookSym) {
 		return
@@ -396,7 +409,21 @@ func removalWhileMemberDown(rec *mon.Recorder, c int) {
 	if compacted {
 		phase = "after-catch-up-by-snapshot-of-a-member-that-was-down-during-the-removal"
 	}
-	if !r.converge(append(up, lag), want, phase, bookSym) {
+	sym := bookSym
+	if lag.NoRejoin {
+		sym = func(n *sim.Node, bad string) string {
+			// a returning member that has no address for the node that now leads the membership group cannot answer
+			// it, so nothing of the log ever reaches it
+			if n == lag {
+				lead := up[0].ZeroLeader()
+				if _, known := book(lag)[lead]; lead != 0 && !known {
+					return "book:member-back-with-join-false-cannot-follow-a-leader-that-joined-while-it-was-down"
+				}
+			}
+			return bookSym(n, bad)
+		}
+	}
+	if !r.converge(append(up, lag), want, phase, sym) {
 		return
 	}
 	rec.Seen("phases", phase)
